@@ -31,6 +31,9 @@ def run(ctx, db, tier):
     from . import C06
     C06.self_inclusion(ctx, db, 'C05.awaiter-queued-once')
     C06.consumers_clear(ctx, db, 'C05.handles-consumed-once')
+    # what pop() / the iteration hands to the scheduler must be a handle that was put in: the list reads the storage it wrote
+    C06.typestate(ctx, db, 'C05.carried-handles-read-where-written')
+    C06.collected_is_removed(ctx, db, 'C05.collected-is-removed')
 
 
 def is_resume(ev):
@@ -349,15 +352,26 @@ def fifo_ops(ctx, db, rid='C05.fifo-ops'):
 
 
 def pause_rule(ctx, db):
-    rid = ctx.rule('C05.pause-round-robin', 'ORDER', 'pause::await_suspend appends the pausing coroutine at the tail before it takes the head, removes the head, and transfers to exactly that head', floor=1)
+    rid = ctx.rule('C05.pause-round-robin', 'ORDER+SIBLINGS', 'pause::await_suspend and its user-level sibling coro_queue::swap_coroutine (the building block for awaiters that yield): in coroutine mode the '
+                   'yielding coroutine is appended at the tail before the head is taken, the head is removed, and exactly that head is transferred to; in normal mode nothing is queued', floor=2)
     in_queue = lambda caller, ev, callee: class_of(db, callee).startswith('cocls::coro_queue')      # push()/pop() style helpers of the queue
-    for f, trs in traces_of(db, 'cocls::pause::await_suspend', depth=0, inline=in_queue, per_instance=False):
+    both = traces_of(db, 'cocls::pause::await_suspend', depth=0, inline=in_queue, per_instance=False) + traces_of(db, 'cocls::coro_queue::swap_coroutine', depth=0, inline=in_queue, per_instance=False)
+    for f, trs in both:
         trs = [t for t in trs if live(t)]
         ctx.paths(rid, len(trs))
         bad = None
         for tr in trs:
             ops = [(i, norm(it.get('callee') or '').split('::')[-1], it) for i, it in enumerate(tr) if it.k == 'call' and (norm(it.get('field') or '') == RQ or (it.get('depth', 0) == 0 and efield(f, it) == RQ))]
             names = [o[1] for o in ops]
+            if f['nname'].endswith('swap_coroutine') and mode_of(tr) != 'active':
+                if names:
+                    bad = bad or ('swap_coroutine touches the ready queue outside coroutine mode (%s)' % names, tr)
+                continue
+            names = [n_ for n_ in names if n_ not in ('empty', 'size')]
+            was_empty = any(it.k == 'branch' and it.val is True and (lambda ce: ce is not None and ce.k == 'call' and norm(ce.get('callee') or '').endswith('::empty') and (norm(ce.get('field') or '') == RQ or efield(f, ce) == RQ))(cond_event(tr, i_))
+                            for i_, it in enumerate(tr))
+            if was_empty and not names and (ret_expr(tr) or '') in ('param:h', 'ctor(param:h)'):
+                continue      # nothing else is ready: appending the yielding coroutine and taking the head gives the coroutine itself
             if names[:3] != ['push_back', 'front', 'pop_front'] or len(names) != 3:
                 bad = bad or ('ready-queue operations are %s, expected push_back, front, pop_front' % names, tr); continue
             if re.sub(r'^(ctor|move)\((.*)\)$', r'\2', (ops[0][2].get('args') or [{}])[0].get('path') or '') != 'param:h':
